@@ -106,7 +106,17 @@ def run_case(case):
                         detail=f"ValueError names state {s_}, action {a_} whose probabilities sum to "
                                f"{rows[s_, a_] if (0 <= s_ < S and 0 <= a_ < A) else 'n/a'!r}; deviating pairs are "
                                f"{[(int(i), int(j)) for i, j in zip(*np.where(devi > tol))][:5]}")
-        return dict(status="ok", cls=cls, named=[s_, a_])
+        if variant == "beyond":
+            loose = float(devi.max()) * 4.0
+            try:
+                o3 = problem.build_transition_and_reward_matrices(normalization_tolerance=loose)
+            except Exception as e:  # noqa: BLE001
+                return dict(status="violation", kind="spurious-error",
+                            detail=f"after a (correct) ValueError at tolerance {tol:g}, the same instance asked with tolerance {loose:.3g} > "
+                                   f"deviation {devi.max():.3g} raised {type(e).__name__}: {str(e)[:150]}")
+            if np.abs(np.asarray(o3[0], dtype=float).sum(-1) - 1.0).max() > 1e-9:
+                return dict(status="violation", kind="row-sum", detail="rows of the second (accepted) call do not sum to one")
+        return dict(status="ok", cls=cls, named=[s_, a_], repeat_calls=1 if variant == "beyond" else 0)
     if raised is not None:
         return dict(status="violation", kind="spurious-error",
                     detail=f"largest deviation {devi.max():.3g} <= tolerance {tol:g}, yet ValueError: {raised[:200]}")
@@ -127,6 +137,24 @@ def run_case(case):
         s_, a_ = np.unravel_index(int(np.argmax(np.abs(R - Rref))), R.shape)
         return dict(status="violation", kind="R-entry",
                     detail=f"R[state {s_}, action {a_}] = {R[s_, a_]!r}, expected reward is {Rref[s_, a_]!r}")
+    # the same instance is asked again: results must not depend on earlier calls or their tolerances
+    again = 0
+    if variant == "within":
+        strict = float(devi.max()) / 4.0          # the injected deviation is 4x this tolerance
+        try:
+            problem.build_transition_and_reward_matrices(normalization_tolerance=strict)
+            return dict(status="violation", kind="no-error-on-second-call",
+                        detail=f"pair(s) {dev_pairs} deviate by {devi.max():.3g}: accepted with tolerance {tol:g} (correct), then the SAME "
+                               f"instance was asked again with tolerance {strict:.3g} < deviation and returned matrices instead of a ValueError")
+        except ValueError as e:
+            m2 = re.search(r"state (\d+), action (\d+)", str(e))
+            if not m2 or devi[int(m2.group(1)), int(m2.group(2))] <= strict:
+                return dict(status="violation", kind="error-names-wrong-pair", detail=f"second call: {str(e)[:200]}")
+        again += 1
+    out2 = problem.build_transition_and_reward_matrices(normalization_tolerance=tol * (10.0 if variant == "exact" else 1.0))
+    if not (np.array_equal(np.asarray(out2[0]), np.asarray(out[0])) and np.array_equal(np.asarray(out2[1]), np.asarray(out[1]))):
+        return dict(status="violation", kind="second-call-differs", detail="a second call on the same instance returned different matrices")
+    again += 1
     solved = False
     if case.get("solve") and variant == "exact":
         g = case["gamma"]
@@ -140,7 +168,7 @@ def run_case(case):
                 return dict(status="violation", kind="solve-disagrees",
                             detail=f"optimal values of the returned matrices differ from the functional solver by {verr:.4g} > eps {eps:.4g}")
             solved = True
-    return dict(status="ok", cls=cls, solved=solved)
+    return dict(status="ok", cls=cls, solved=solved, repeat_calls=again)
 
 
 def aggregate(records, cases):
@@ -148,7 +176,8 @@ def aggregate(records, cases):
     v = {}
     for r in ok:
         v[r["cls"][3]] = v.get(r["cls"][3], 0) + 1
-    return dict(by_variant=v, functional_solver_agreements=sum(1 for r in ok if r.get("solved")))
+    return dict(by_variant=v, functional_solver_agreements=sum(1 for r in ok if r.get("solved")),
+                repeated_calls_on_one_instance=sum(r.get("repeat_calls", 0) for r in ok))
 
 
 def coverage_check(records, cases, tier):
